@@ -76,6 +76,35 @@ add("wrap_deflate::w_routing_c11", ["C11"],
     "window_bits < 15 => at most one probe",
     _ROUTE_BOUND, **_ROUTE_COMMON)
 
+# ----------------------------------------------------------------- C ABI shim
+CATCH = "catch_unwind -> catch_unwind_identity"
+add("capi::l_deflate_bound", ["C15"],
+    "mz_deflateBound(n) >= exact size of the level-0 zlib stream for n bytes (n + 6 + 5*(n/31745+1), from stored.rs's block cut rule); "
+    "no overflow; equals max of the formula's two arms; mz_compressBound(n) is the same value",
+    "all n < 2^32 (exact)", functions=["mz_deflateBound", "mz_compressBound"], timeout=300,
+    assumes=["level-0 stream size formula derived from stored.rs (validated against the real compressor for n <= 3 in e_comp and natively in refcheck)"])
+add("capi::w_mz_inflate", ["C17", "C06"],
+    "real extern \"C\" mz_inflateInit/mz_inflate/mz_inflateEnd: return code = mapped Rust status; next_in/next_out advance = drop in avail_* = rise in total_* "
+    "(wrapping), never beyond what was available; flush outside 0..=4 => MZ_PARAM_ERROR with nothing moved; partial flush treated as sync; "
+    "every access stays inside the declared (ptr, avail) ranges (CBMC pointer checks, buffers end at their object's end)",
+    "avail_in, avail_out in 0..=3 (symbolic), totals arbitrary u64, flush arbitrary i32, inner inflate() = any result within the offered buffers",
+    kind="W", timeout=600, functions=["mz_inflateInit", "mz_inflateInit2", "mz_inflate", "mz_inflateEnd", "oxidize!", "StreamOxide::try_new",
+                                      "StreamOxide::into_mz_stream", "mz_inflate_oxide", "mz_inflate_init2_oxide", "MZFlush::new", "as_c_return_code"],
+    stubs=[CATCH, "inflate -> inflate_contract"], stubs_change_behaviour=True,
+    assumes=["inner inflate() stays within its slices (decided for the real inflate() by the C13 harnesses under D1)", "catch_unwind is the identity (panic=abort model; panics are reported as failures)"])
+add("capi::w_mz_misuse", ["C17"],
+    "misuse expressible in C returns an error code, no panic: null stream for every entry point => MZ_STREAM_ERROR; mz_deflateInit2 succeeds iff method=8, "
+    "mem_level in 1..=9, window_bits = +-15, else MZ_PARAM_ERROR with no state; mz_inflateInit2 iff window_bits = +-15; stream of the other kind / never "
+    "initialised => MZ_PARAM_ERROR; missing buffers => MZ_STREAM_ERROR with state kept",
+    "all (flush, level, method, window_bits, mem_level, strategy) in i32^6 (exact)",
+    kind="W", timeout=900, mem_gb=24,
+    functions=["mz_deflateInit2", "mz_inflateInit2", "mz_deflate", "mz_inflate", "mz_deflateEnd", "mz_inflateEnd", "mz_deflateReset", "invalid_window_bits",
+               "mz_deflate_init2_oxide", "mz_inflate_init2_oxide", "StreamOxide::try_new"],
+    stubs=[CATCH], assumes=["catch_unwind is the identity (panic=abort model; panics are reported as failures)"],
+    replay=dict(kind="native", signed=True, vals=["flush", "level", "method", "wbits", "mem", "strat"],
+                cmd=["capi-init", "{level}", "{method}", "{wbits}", "{mem}", "{strat}"],
+                sig=lambda env: "init-window-bits-negation-overflow" if env.get("wbits") == -2**31 else "other-init-misuse"))
+
 
 def all_harnesses():
     gen = os.path.join(VERIF, "kani", "src", "gen", "registry.json")
